@@ -22,6 +22,7 @@ for id in $IDS; do
   line=$(grep -E "VIOLATION|INCONCLUSIVE|BUILD FAILED" "$W/.verif/$id.log" | head -1 | sed "s#$W/.verif/##")
   key=$(grep -E "^  key:" "$W/.verif/$id.log" | head -1)
   echo "$NAME $id seed=${VERIF_SEED:-0} rc=$rc verif=$REV $line $key" >> "$D/matrix.txt"
+  if [ $rc -eq 2 ]; then cp "$W/.verif/$id.log" "/verif/out/matrix-rc2-$NAME-$id.log"; fi
   if [ $rc -eq 1 ]; then
      f=$(grep -E "VIOLATION" "$W/.verif/$id.log" | head -1 | sed -n 's/.*replay=\([^ ]*\).*/\1/p')
      [ -n "$f" ] && [ -f "$f" ] && cp "$f" "$D/caught-by-$id.case"
